@@ -21,7 +21,11 @@ PROPS = {}
 _d = os.path.join(os.path.dirname(os.path.abspath(__file__)), "props")
 for _fn in sorted(os.listdir(_d)):
     if _fn.endswith(".py") and not _fn.startswith("_"):
-        _spec = importlib.util.spec_from_file_location("verif_prop_" + _fn[:-3], os.path.join(_d, _fn))
-        _m = importlib.util.module_from_spec(_spec)
-        _spec.loader.exec_module(_m)
-        PROPS[_fn[:-3]] = _m.PROP
+        try:
+            _spec = importlib.util.spec_from_file_location("verif_prop_" + _fn[:-3], os.path.join(_d, _fn))
+            _m = importlib.util.module_from_spec(_spec)
+            _spec.loader.exec_module(_m)
+            PROPS[_fn[:-3]] = _m.PROP
+        except Exception as _e:  # a broken entry must not take the other properties down
+            import sys
+            print("registry: cannot load %s: %r" % (_fn, _e), file=sys.stderr)
